@@ -1,1 +1,2 @@
+pub mod asmlint;
 pub mod heap;
